@@ -78,6 +78,14 @@ def parseFeat (s : String) : Option Feat :=
 
 def code {α} (r : Except Err α) : String := toString (outcome r)
 
+def parseNorm (s : String) : Option NormOrd :=
+  if s = "INF" then some .inf
+  else if s = "NINF" then some .negInf
+  else if s = "EUC" then some .euclidean
+  else if s = "FRO" then some .fro
+  else if s.startsWith "V" then (parseVal (s.drop 1).toString).map NormOrd.val
+  else none
+
 def showCanon {α} (sh : α → Val) : Except Err α → String
   | .ok v => showVal (sh v)
   | .error e => showErr e
@@ -88,6 +96,10 @@ def handlers : List (String × Handler) := [
       let r : RawLattice := ⟨← parseVal a, ← parseVal b, ← parseVal c, ← parseVal d, ← parseVal e,
         ← parseVal f, ← parseVal g, ← parseVal h, ← parseJU j, ← parseVal lo, ← parseVal hi⟩
       pure (code (latticeConstraints r))
+    | [a, b, c, d, e, f, g, h, j, lo, hi, it] => do
+      let r : RawLatticeFull := ⟨← parseVal a, ← parseVal b, ← parseVal c, ← parseVal d, ← parseVal e,
+        ← parseVal f, ← parseVal g, ← parseVal h, ← parseJU j, ← parseVal lo, ← parseVal hi, ← parseVal it⟩
+      pure (code (latticeConstraintsFull r))
     | _ => none),
   ("vfy.LinearInitializer", fun args => match args with
     | [a, b, c, d, e] => do
@@ -108,10 +120,17 @@ def handlers : List (String × Handler) := [
       pure (code (pwlCalibration ⟨← parseVal a, ← parseVal b, ← parseVal c, ← parseVal d, ← parseVal e,
         ← parseVal f, ← parseVal g, ← parseVal h, ← parseVal i, ← parseVal j, ← parseVal k, ← parseVal l,
         ← parseVal m⟩))
+    | [a, b, c, d, e, f, g, h, i, j, k, l, m, u, it, sp] => do
+      pure (code (pwlCalibrationFull ⟨← parseVal a, ← parseVal b, ← parseVal c, ← parseVal d, ← parseVal e,
+        ← parseVal f, ← parseVal g, ← parseVal h, ← parseVal i, ← parseVal j, ← parseVal k, ← parseVal l,
+        ← parseVal m, ← parseVal u, ← parseVal it, ← parseVal sp⟩))
     | _ => none),
   ("vfy.PWLCalibrationConstraints", fun args => match args with
     | [a, b, c, d, e] => do
       pure (code (pwlConstraints ⟨← parseVal a, ← parseVal b, ← parseVal c, ← parseVal d, ← parseVal e⟩))
+    | [a, b, c, d, e, it] => do
+      pure (code (pwlConstraintsFull ⟨← parseVal a, ← parseVal b, ← parseVal c, ← parseVal d, ← parseVal e,
+        ← parseVal it⟩))
     | _ => none),
   ("vfy.UniformOutputInitializer", fun args => match args with
     | [a, b, c, d] => do
@@ -120,14 +139,35 @@ def handlers : List (String × Handler) := [
   ("vfy.LinearConstraints", fun args => match args with
     | [a, b, c, d, e] => do
       pure (code (linearConstraints ⟨← parseVal a, ← parseVal b, ← parseVal c, ← parseVal d, ← parseVal e⟩))
+    | [a, b, c, d, e, no] => do
+      pure (code (linearConstraintsFull ⟨← parseVal a, ← parseVal b, ← parseVal c, ← parseVal d, ← parseVal e,
+        ← parseNorm no⟩))
     | _ => none),
   ("vfy.Linear", fun args => match args with
     | [a, b, c, d] => do pure (code (linearLayer ⟨← parseVal a, ← parseVal b, ← parseVal c, ← parseVal d⟩))
+    | [a, b, c, d, u, no] => do
+      pure (code (linearLayerFull ⟨← parseVal a, ← parseVal b, ← parseVal c, ← parseVal d, ← parseVal u,
+        ← parseNorm no⟩))
+    | _ => none),
+  -- the first projection's use of `normalization_order` (`tf.norm`)
+  ("vfy.norm_late", fun args => match args with
+    | [no] => do pure (code (normLate (← parseNorm no)))
     | _ => none),
   ("vfy.Lattice", fun args => match args with
     | [a, b, c, j, lo, hi, ip, ini] => do
       pure (code (latticeLayer ⟨← parseVal a, ← parseVal b, ← parseVal c, ← parseJU j, ← parseVal lo,
         ← parseVal hi, ← parseVal ip, ← parseVal ini⟩))
+    | [a, b, c, j, lo, hi, ip, ini, u, it, ew, tp, md, rd, jm] => do
+      pure (code (latticeLayerFull ⟨← parseVal a, ← parseVal b, ← parseVal c, ← parseJU j, ← parseVal lo,
+        ← parseVal hi, ← parseVal ip, ← parseVal ini, ← parseVal u, ← parseVal it, ← parseVal ew, ← parseVal tp,
+        ← parseVal md, ← parseVal rd, ← parseVal jm⟩))
+    | _ => none),
+  -- `Lattice.__init__` + `build`: the constructor, then `LatticeConstraints` of the stored attributes
+  ("vfy.LatticeBuild", fun args => match args with
+    | [a, b, c, j, lo, hi, ip, ini, u, it, ew, tp, md, rd, jm] => do
+      pure (code (latticeBuild ⟨← parseVal a, ← parseVal b, ← parseVal c, ← parseJU j, ← parseVal lo,
+        ← parseVal hi, ← parseVal ip, ← parseVal ini, ← parseVal u, ← parseVal it, ← parseVal ew, ← parseVal tp,
+        ← parseVal md, ← parseVal rd, ← parseVal jm⟩))
     | _ => none),
   ("vfy.CategoricalCalibrationConstraints", fun args => match args with
     | [a, b, c] => do pure (code (categoricalConstraints ⟨← parseVal a, ← parseVal b, ← parseVal c⟩))
@@ -135,9 +175,19 @@ def handlers : List (String × Handler) := [
   ("vfy.CategoricalCalibration", fun args => match args with
     | [a, b, c, d] => do pure (code (categoricalLayer ⟨← parseVal a, ← parseVal b, ← parseVal c, ← parseVal d⟩))
     | _ => none),
+  ("vfy.CategoricalCalibrationFull", fun args => match args with
+    | [a, b, c, d, u, sp] => do
+      pure (code (categoricalLayerFull ⟨← parseVal a, ← parseVal b, ← parseVal c, ← parseVal d, ← parseVal u,
+        ← parseVal sp⟩))
+    | _ => none),
   ("vfy.KroneckerFactoredLattice", fun args => match args with
     | [a, b, c, d, e] => do
-      pure (code (kflLayer ⟨← parseVal a, ← parseVal b, ← parseVal c, ← parseVal d, ← parseVal e⟩))
+      pure (code (kflLayerInt ⟨← parseVal a, ← parseVal b, ← parseVal c, ← parseVal d, ← parseVal e⟩))
+    | _ => none),
+  ("vfy.KroneckerFactoredLatticeBuild", fun args => match args with
+    | [a, b, c, d, e, m, dims] => do
+      pure (code (kflBuildRow ⟨← parseVal a, ← parseVal b, ← parseVal c, ← parseVal d, ← parseVal e, ← parseVal m,
+        ← parseVal dims⟩))
     | _ => none),
   ("vfy.RTL", fun args => match args with
     | [a, b, c, d, e, f, g] => do
